@@ -347,20 +347,33 @@ Definition sublang_of (language : bytes) : option bytes :=
     else Some language
   end.
 
-Definition tags_from_language (srch : bytes -> option (option nat)) (language : bytes) : option (list N) :=
+(* tags_from_language in two halves around the registry search *)
+Inductive lang_step :=
+| LDone (r : option (list N))     (* finished before the search: panic (None) or the complex matcher's tags *)
+| LSearch (sub : bytes).          (* the registry is searched for `sub` *)
+
+Definition tfl_pre (language : bytes) : lang_step :=
   match complex language with
-  | None => None
-  | Some (Some t) => Some t
+  | None => LDone None
+  | Some (Some t) => LDone (Some t)
   | Some None =>
     match sublang_of language with
-    | None => None
-    | Some sub =>
-      match srch sub with
-      | None => None
-      | Some (Some idx) => Some (tfl_found idx)
-      | Some None => Some (tfl_notfound language)
-      end
+    | None => LDone None
+    | Some sub => LSearch sub
     end
+  end.
+
+Definition tfl_post (language : bytes) (r : option (option nat)) : option (list N) :=
+  match r with
+  | None => None
+  | Some (Some idx) => Some (tfl_found idx)
+  | Some None => Some (tfl_notfound language)
+  end.
+
+Definition tags_from_language (srch : bytes -> option (option nat)) (language : bytes) : option (list N) :=
+  match tfl_pre language with
+  | LDone r => r
+  | LSearch sub => tfl_post language (srch sub)
   end.
 
 (* ------------------------------------------------------------------ tags_from_script_and_language *)
